@@ -255,3 +255,41 @@ def inline_helper(f, e, max_blocks=40):
     if any(l > hb.argc or l < 1 for l in vs):
         return None
     return subst(rets[0], {i + 1: a for i, a in enumerate(e[2])})
+
+
+def ok_payload_of(f, path, args):
+    """the payload of the single `Ok(..)` / `Some(..)` a crate-local function returns, over the actual arguments, when it is an
+    expression over the function's parameters alone (None otherwise)"""
+    hb = f.bodies.get(path)
+    if hb is None or hb.kind not in ("fn", "method") or hb.argc != len(args):
+        return None
+    heb = ExprBuilder(hb)
+    oks = []
+    for bi, k, st in hb.stmts():
+        if st["k"] == "assign" and st["p"]["l"] == 0 and not st["p"].get("p") and st["rv"]["k"] == "agg" and st["rv"].get("variant") in ("Ok", "Some"):
+            oks.append(heb.rvalue(st["rv"]))
+    if len(oks) != 1 or len(oks[0][2]) != 1:
+        return None
+    pay = oks[0][2][0]
+    vs = set()
+    free_locals(pay, vs)
+    if any(l > hb.argc or l < 1 for l in vs) or any(hb.defs.get(l) for l in vs):
+        return None
+    return subst(pay, {i + 1: a for i, a in enumerate(args)})
+
+
+def see_through_try(f, e, depth=0):
+    """replace `(branch(helper(args)) as Continue).0` / `(helper(args) as Ok).0` by the helper's Ok payload over the arguments"""
+    if depth > 40 or not isinstance(e, (tuple, list)):
+        return e
+    if isinstance(e, tuple) and e and e[0] == "field" and e[2] == "0" and e[1][0] == "downcast" and e[1][2] in ("Continue", "Ok", "Some"):
+        inner = e[1][1]
+        if inner[0] == "call" and inner[1].endswith("as std::ops::Try>::branch") and len(inner[2]) == 1:
+            inner = inner[2][0]
+        if inner[0] == "call" and isinstance(inner[1], str) and inner[1] in f.bodies:
+            r = ok_payload_of(f, inner[1], inner[2])
+            if r is not None:
+                return see_through_try(f, r, depth + 1)
+    if isinstance(e, tuple):
+        return tuple(see_through_try(f, x, depth + 1) if isinstance(x, (tuple, list)) else x for x in e)
+    return [see_through_try(f, x, depth + 1) if isinstance(x, (tuple, list)) else x for x in e]
